@@ -797,10 +797,12 @@ impl MdkStorageProvider for MdkMemoryStorage {
     fn create_group_snapshot(&self, group_id: &GroupId, name: &str) -> Result<(), MdkStorageError> {
         // Create a group-scoped snapshot that only captures data for this group.
         // This ensures that rolling back this snapshot won't affect other groups.
+        // Hold the snapshot map across copying and inserting (same lock order as
+        // rollback_group_to_snapshot), so that a concurrent rollback or re-take of this name
+        // cannot slip in between and leave a snapshot of a state that no longer applies.
+        let mut snapshots = self.group_snapshots.write();
         let snapshot = self.create_group_scoped_snapshot(group_id);
-        self.group_snapshots
-            .write()
-            .insert((group_id.clone(), name.to_string()), snapshot);
+        snapshots.insert((group_id.clone(), name.to_string()), snapshot);
         Ok(())
     }
 
